@@ -114,7 +114,22 @@ impl ProcessState {
         // start-up transaction.
         let mut init_lock = Lock::new(lock_manager.clone(), 0);
         init_lock.wait_lock(LockType::Exclusive)?;
-        let must_create = !dbfile.exists();
+        let mut must_create = !dbfile.exists();
+        if !must_create {
+            // A first invocation that was killed before the transaction creating
+            // the schema committed leaves a database file without any table.
+            // That is not a database of another version: finish the job.
+            let probe = connect(&e, &dbfile)
+                .map_err(|e| RedoError::new(format!("could not connect: {}", e)))?;
+            let tables: i64 = probe
+                .query_row(
+                    "select count(*) from sqlite_master where type = 'table'",
+                    [],
+                    |row| row.get(0),
+                )
+                .map_err(|e| RedoError::wrap(e, "schema check failed"))?;
+            must_create = tables == 0;
+        }
         let mut db: Connection;
         {
             let tx = if !must_create {
